@@ -391,3 +391,71 @@ mod test {
         );
     }
 }
+
+#[cfg(feature = "verif-hooks")]
+pub mod verif_probe {
+    //! Verification probe: exposes the private fair queue to the conformance harness.
+    use super::*;
+
+    pub struct FairQueueProbe<S, K: Clone>(FairQueue<S, K>);
+    pub struct ProbeHandle<S, K: Clone>(Arc<Mutex<QueueInner<S, K>>>);
+    impl<S, K: Clone> Clone for ProbeHandle<S, K> {
+        fn clone(&self) -> Self {
+            Self(self.0.clone())
+        }
+    }
+
+    #[derive(Debug, Clone, PartialEq, Eq)]
+    pub struct Snapshot<K> {
+        pub ready: Vec<(usize, K)>,
+        pub streams: Vec<K>,
+        pub waker: bool,
+        pub counter: usize,
+    }
+
+    impl<S, K: Clone + Eq + Hash + Ord> ProbeHandle<S, K> {
+        pub fn insert(&self, k: K, s: S) {
+            self.0.lock().insert(k, s);
+        }
+        pub fn remove(&self, k: &K) {
+            self.0.lock().remove(k);
+        }
+        pub fn snapshot(&self) -> Snapshot<K> {
+            let inner = self.0.lock();
+            let mut ready: Vec<(usize, K)> = inner
+                .ready_queue
+                .iter()
+                .map(|e| (e.priority, e.key.clone()))
+                .collect();
+            ready.sort();
+            let mut streams: Vec<K> = inner.streams.keys().cloned().collect();
+            streams.sort();
+            Snapshot {
+                ready,
+                streams,
+                waker: inner.waker.is_some(),
+                counter: inner.counter.load(atomic::Ordering::Relaxed),
+            }
+        }
+    }
+
+    impl<S, K: Clone> FairQueueProbe<S, K> {
+        pub fn new(block_on_no_clients: bool) -> Self {
+            Self(FairQueue::new(block_on_no_clients))
+        }
+        pub fn handle(&self) -> ProbeHandle<S, K> {
+            ProbeHandle(self.0.inner())
+        }
+    }
+
+    impl<S, T, K> FairQueueProbe<S, K>
+    where
+        T: Send,
+        S: Stream<Item = T> + Send + 'static,
+        K: Eq + Hash + Unpin + Clone + Send + Sync + 'static,
+    {
+        pub fn poll_next(&mut self, cx: &mut Context<'_>) -> Poll<Option<(K, T)>> {
+            Pin::new(&mut self.0).poll_next(cx)
+        }
+    }
+}
